@@ -16,7 +16,7 @@
 (*  (C) a generator of sources (stage machine) usable both breadth-first   *)
 (*      (exhaustive for small constants) and with `tlc -simulate` (seeded  *)
 (*      sample of large constants), and a reader of cases from an ndjson   *)
-(*      file (repository fixtures; oracle only).                           *)
+(*      file (repository fixtures: oracle only; --replay: with model).     *)
 (*                                                                         *)
 (* Design-level property (DesignOk): FontKern(l,r,m) = Round(UfoLookup(m,  *)
 (* l,r)) for all ordered pairs and all kerning masters.  It is evaluated   *)
@@ -296,7 +296,7 @@ MaxTot == EnvInt("C09_MAXTOTAL", MaxTotal)
 FileCases == ndJsonDeserialize(IOEnv.C09_CASES)
 FileCase(i) ==
     LET r == FileCases[i]
-    IN [glyphs |-> r.glyphs, dflt |-> r.dflt, den |-> r.den, model |-> FALSE, n |-> Len(r.masters),
+    IN [glyphs |-> r.glyphs, dflt |-> r.dflt, den |-> r.den, model |-> r.model, n |-> Len(r.masters),
         name |-> r.name,
         ms |-> [j \in 1..Len(r.masters) |->
                   [g1 |-> r.masters[j].g1, g2 |-> r.masters[j].g2,
